@@ -445,6 +445,7 @@ func (c *DnsCache) prepackResponseBeforeStore(qname string, qtype uint16, ttl ui
 	c.packedResponse.Store(&packed)
 	c.packedResponseTTL.Store(ttl)
 	c.packedResponseCreatedAt.Store(now.UnixNano())
+	c.deadlineNano.Store(c.Deadline.UnixNano())
 	return nil
 }
 
